@@ -1,0 +1,46 @@
+//go:build verif
+
+package node
+
+// Machine-checked contracts for /verif/govc (contract-based deductive verification).
+// This file contains comments only; it is compiled only with -tags verif and adds no code.
+//
+// Miner ranking (C35) is minerPerm[node.SetIndex]: it is a permutation of the miners only if every
+// node of the pool carries its own position in np.Nodes as SetIndex. That is what AddNode must
+// re-establish on every call, whether the node is new or replaces one with the same key.
+
+//@ spec nodesOK(np *Pool) bool = np != nil && np.NodesMap != nil && (forall i in 0..len(np.Nodes) :: np.Nodes[i] != nil) && (forall i in 0..len(np.Nodes) :: forall j in i+1..len(np.Nodes) :: np.Nodes[i].ID != np.Nodes[j].ID) && (forall i in 0..len(np.Nodes) :: np.Nodes[i].ID in np.NodesMap)
+//@ spec positioned(np *Pool) bool = forall i in 0..len(np.Nodes) :: np.Nodes[i].SetIndex == i
+
+// Re-sorting by key and renumbering: afterwards every node's SetIndex is its position.
+//@ func (*Pool).computeNodePositions
+//@   prop C35
+//@   requires np != nil && (forall i in 0..len(np.Nodes) :: np.Nodes[i] != nil) && (forall i in 0..len(np.Nodes) :: forall j in i+1..len(np.Nodes) :: np.Nodes[i] != np.Nodes[j])
+//@   ensures[index-is-position] positioned(np)
+//@   ensures len(np.Nodes) == old(len(np.Nodes)) && np.Nodes == old(np.Nodes)
+//@   modifies np.Nodes[*], any(Node).SetIndex
+//@   loop 1 header "for idx, node := range np.Nodes"
+//@   loop 1 invariant forall k in 0..$idx+1 :: np.Nodes[k].SetIndex == k
+//@   loop 1 invariant forall k in 0..len(np.Nodes) :: np.Nodes[k] != nil
+//@   loop 1 invariant forall k in 0..len(np.Nodes) :: forall j in k+1..len(np.Nodes) :: np.Nodes[k] != np.Nodes[j]
+
+// Key parsing / signature-scheme setup on the node itself, and the process-wide registry: frames only.
+//@ assume func 0chain.net/chaincore/client.(*Client).SetPublicKey
+//@   params c key
+//@   modifies c.PublicKey, c.PublicKeyBytes, c.SigScheme
+//@ func RegisterNode
+//@   trusted
+//@   modifies nothing
+
+// AddNode: on success the pool is positioned again, for a new key and for a replaced node alike.
+//@ func (*Pool).AddNode
+//@   prop C35
+//@   requires nodesOK(np) && node != nil && held(np.mmx) == 0 && rheld(np.mmx) == 0
+//@   ensures[index-is-position] result == nil ==> positioned(np)
+//@   ensures[size] result == nil ==> len(np.Nodes) == old(len(np.Nodes)) || len(np.Nodes) == old(len(np.Nodes)) + 1
+//@   lock-balanced np.mmx
+//@   loop 1 header "for i, nd := range np.Nodes"
+//@   loop 1 invariant held(np.mmx) == 1 && rheld(np.mmx) == 0 && np.Nodes == old(np.Nodes) && np.NodesMap == old(np.NodesMap) && node.ID == old(node.ID)
+//@   loop 1 invariant forall k in 0..len(np.Nodes) :: np.Nodes[k] == old(np.Nodes[k])
+//@   loop 1 invariant forall k in 0..len(np.Nodes) :: np.Nodes[k] != nil
+//@   loop 1 invariant forall k in 0..len(np.Nodes) :: forall j in k+1..len(np.Nodes) :: np.Nodes[k].ID != np.Nodes[j].ID
